@@ -50,7 +50,7 @@ def gen_cases(tier: str, seed: int) -> list[dict[str, Any]]:
 
 
 class InvariantBroken(Exception):
-    pass
+    _vmon_target = True  # a broken contract is a verdict about the code under test, also when it fires inside a ladim run
 
 
 _state: dict[str, Any] = dict(n=0, installed=False)
